@@ -239,6 +239,47 @@ Proof.
   rewrite (try_bracketed_some "<" ">" KError w1 name w2 after Hi H1 H2 eq_refl eq_refl). reflexivity.
 Qed.
 
+(* `<` where the < NAME > alternative does not match: no term starts there *)
+Theorem match_here_lt pw r : try_bracketed "<" ">" KError (String "<" r) = None -> match_here pw (String "<" r) = None.
+Proof.
+  intros B. unfold match_here, or_else.
+  assert (V : try_verbatim (String "<" r) = None) by (unfold try_verbatim; destruct r; reflexivity).
+  rewrite V, (try_invalid_inert KW "<" _ kw_nonempty_alpha eq_refl).
+  assert (K : (if pw then None else try_keyword KW (String "<" r)) = None).
+  { destruct pw; [reflexivity|]. apply (try_keyword_inert KW "<" _ kw_nonempty_alpha eq_refl). }
+  rewrite K. cbn [try_function]. change (is_alpha_ "<") with false. cbv iota.
+  assert (B0 : try_bracketed "{" "}" KParameter (String "<" r) = None) by reflexivity.
+  rewrite B0, B. reflexivity.
+Qed.
+
+(* a bracketed term that matches keeps matching when text is appended (the span scans stop inside the match) *)
+Lemma span_while_stop p a b : forall n d r, span_while p a = (n, String d r) -> span_while p (a ++ b) = (n, String d (r ++ b)).
+Proof.
+  induction a as [|c a IH]; cbn [span_while append]; intros n d r H; [discriminate|].
+  destruct (p c).
+  - destruct (span_while p a) as [n' r'] eqn:E. inversion H; subst. rewrite (IH _ _ _ eq_refl). reflexivity.
+  - inversion H; subst. reflexivity.
+Qed.
+Lemma try_bracketed_extend op cl k a b m :
+  try_bracketed op cl k (String op a) = Some m -> exists m', try_bracketed op cl k (String op (a ++ b)) = Some m'.
+Proof.
+  unfold try_bracketed. rewrite Ascii.eqb_refl.
+  destruct (span_while is_space a) as [w1 r1] eqn:E1. destruct r1 as [|a0 r1']; [discriminate|].
+  rewrite (span_while_stop _ _ b _ _ _ E1).
+  destruct (is_alpha_ a0); [|discriminate].
+  destruct (span_while is_idc (String a0 r1')) as [name r2] eqn:E2.
+  destruct (span_while is_space r2) as [w2 r3] eqn:E3. destruct r3 as [|d r4]; [discriminate|].
+  assert (E2' : exists r2', span_while is_idc (String a0 (r1' ++ b)) = (name, r2') /\
+                            exists w2' , span_while is_space r2' = (w2', String d (r4 ++ b))).
+  { destruct r2 as [|e r2''].
+    - cbn [span_while] in E3. discriminate.
+    - change (String a0 (r1' ++ b)) with (String a0 r1' ++ b). rewrite (span_while_stop _ _ b _ _ _ E2).
+      eexists. split; [reflexivity|]. change (String e (r2'' ++ b)) with (String e r2'' ++ b).
+      rewrite (span_while_stop _ _ b _ _ _ E3). eauto. }
+  destruct E2' as (r2' & -> & w2' & ->).
+  destruct (Ascii.eqb d cl); [|discriminate]. intros _. eauto.
+Qed.
+
 (* the optional index group behind a parameter / error *)
 Lemma with_index_none k name base after :
   head_ok (fun c => negb (Ascii.eqb c "[")) after = true -> with_index k name base after = mkMatch k name None base.
